@@ -215,6 +215,16 @@ pub const LIMIT_SIZES_FIXED: &[(u32, u32)] = &[
     (2100, 2049),
     (4000, 3000),
     (120_000, 2049),
+    // windows only slightly longer than a very long needle (few matrix columns, many rows)
+    (2048, 2047),
+    (2049, 2048),
+    (2050, 2049),
+    (2060, 2049),
+    (2522, 2521),
+    (2530, 2521),
+    (2700, 2690),
+    (3003, 3000),
+    (5010, 5000),
 ];
 
 /// size in bytes of the scratch layout the matrix needs for a window of `h` haystack characters of
